@@ -1,6 +1,6 @@
 (* Property C06 — a partitioned (parallel) data set reads as the whole data set. *)
 From Coq Require Import ZArith Bool Arith List Permutation.
-From FC Require Import Model.Merge Model.Structured Proofs.MergeP.
+From FC Require Import Model.Merge Model.Structured Proofs.MergeP Proofs.StructuredP.
 Import ListNotations.
 Local Open Scope nat_scope.
 
@@ -78,6 +78,43 @@ Theorem C06_merge2_pinned_refuted :
 Proof. exact merge2_pinned_refuted. Qed.
 Print Assumptions C06_merge2_pinned_refuted.
 
+(* ---- structured pieces (.pvti / .pvtr / .pvts, StructuredFieldMerger) --------------------------- *)
+
+(* for every decomposition (any number of axes, any piece sizes) the cell index lists of the pieces partition [0, N_cells) *)
+Theorem C06_piece_indices_partition : forall dec,
+  Permutation
+    (flat_map (fun loc => piece_entity_indices dec loc (piece_shape dec loc) (merged_cell_shape dec))
+              (locations_in (pieces_shape dec)))
+    (seq 0 (nprod (merged_cell_shape dec))).
+Proof. exact piece_indices_partition. Qed.
+Print Assumptions C06_piece_indices_partition.
+
+(* ... and the point index lists cover [0, N_points) *)
+Theorem C06_piece_indices_cover_points : forall dec, Forall (fun s => s <> []) dec ->
+  forall k, k < nprod (merged_point_shape dec) ->
+  exists loc, In loc (locations_in (pieces_shape dec)) /\
+    In k (piece_entity_indices dec loc (map S (piece_shape dec loc)) (merged_point_shape dec)).
+Proof. exact piece_indices_cover_points. Qed.
+Print Assumptions C06_piece_indices_cover_points.
+
+(* merging the restrictions of a global x-fastest field gives the global field (point and cell fields) *)
+Theorem C06_structured_merge_is_global : forall (V : Type) (zero : V) (dec : list (list nat)) (is_point : bool)
+    (g : list V) (field_of : list nat -> list V),
+  Forall (fun s => s <> []) dec ->
+  length g = nprod (entity_shape is_point (merged_cell_shape dec)) ->
+  (forall loc, In loc (locations_in (pieces_shape dec)) ->
+     field_of loc = map (fun k => nth k g zero)
+                        (piece_entity_indices dec loc (entity_shape is_point (piece_shape dec loc))
+                                              (entity_shape is_point (merged_cell_shape dec)))) ->
+  smerge zero dec is_point field_of = g.
+Proof. exact structured_merge_is_global. Qed.
+Print Assumptions C06_structured_merge_is_global.
+
+(* finding F-C06b: the numeric type of the merged array — pinned: always float64; repaired: that of the pieces *)
+Theorem C06_smerge_dtype : (forall d, smerge_dtype_fixed d = d) /\ smerge_dtype_pinned I32 <> I32.
+Proof. split; [reflexivity|discriminate]. Qed.
+Print Assumptions C06_smerge_dtype.
+
 Example C06_nonvacuous :
   wf 2 wit_quad /\ wf 2 wit_tri /\
   (* the triangle shares all three points with the square: duplicates 0,1,2 -> 0,1,2 and no fresh point *)
@@ -86,5 +123,10 @@ Example C06_nonvacuous :
   (* merging the other way round: one fresh point, mapped to index 3 *)
   map_ext 4 (dup_map (pts wit_quad) (pts wit_tri)) 3 = [0; 1; 2; 3] /\
   filter_ext 4 (dup_map (pts wit_quad) (pts wit_tri)) = [3] /\
-  ccells 5 (merge2_fixed 0 wit_quad wit_tri) = [[[0; 0]; [1; 0]; [1; 1]]]%Z.
+  ccells 5 (merge2_fixed 0 wit_quad wit_tri) = [[[0; 0]; [1; 0]; [1; 1]]]%Z /\
+  (* a 2 x 1 decomposition of a 3 x 2 lattice: cells of the right piece, points of the left piece, and a merge *)
+  piece_entity_indices [[1; 2]; [2]] [1; 0] [2; 2] [3; 2] = [1; 2; 4; 5] /\
+  piece_entity_indices [[1; 2]; [2]] [0; 0] [2; 3] [4; 3] = [0; 1; 4; 5; 8; 9] /\
+  smerge 0 [[1; 2]; [2]] false (fun loc => match loc with [0; 0] => [10; 13] | _ => [11; 12; 14; 15] end)
+    = [10; 11; 12; 13; 14; 15].
 Proof. split; [exact wit_quad_wf|]. split; [exact wit_tri_wf|]. vm_compute. repeat split; reflexivity. Qed.
